@@ -286,8 +286,8 @@ SIG_SELF = [("R8", r'&self\b', '&mut self'), ("R16", r'&dyn AsRawFd', '&EventFd'
 BODY_RW = [
     ("R6", r'\.map_err\(\|e\|\s*e\.into\(\)\)', '.map_err(|e: VhostUserError| -> (o: Error) ensures o == Error::VhostUserProtocol(e) { e.into() })'),
     ("R12", r'Some\(&\[([\w\.\(\)]+)\]\)', r'fd1(\1)'),
-    ("R12", r'let fds = \[([\w\.\(\)]+)\];', r'let fds = fd1arr(\1);'),
-    ("R12", r'Some\(&fds\)', r'fd1(fds)'),
+    ("R12", r'let (\w*fds\w*) = \[([\w\.\(\)]+)\];', r'let \1 = fd1arr(\2);'),
+    ("R12", r'Some\(&(\w*fds\w*)\)', r'fd1(\1)'),
     ("R7", r'let \(_, payload, _\) = unsafe \{ ctx\.regions\.align_to::<u8>\(\) \};', 'let payload = regions_as_bytes(&ctx.regions);'),
     ("R12", r'Some\(ctx\.fds\.as_slice\(\)\)', 'some_slice(&ctx.fds)'),
     ("R6", r'let flag = enable\.into\(\);', 'let flag = bool_into_u32(enable);'),
